@@ -30,7 +30,7 @@ def catalogue(widths=(1, 2), big=False):
                     lambda hw, i, o, r=r, i_=i_: P.Counter(hw, 'dut', i[0] if r else None, i[r] if i_ else None, o[0]),
                     {'r': r, 'i': i_}, ' r=%d i=%d' % (r, i_))
         add('StepUpCounter', [1, 1, w], [w], lambda hw, i, o: P.StepUpCounter(hw, 'dut', i[0], i[1], i[2], o[0]), {'x': 0})
-        for delay in (1, 2, 3):
+        for delay in (0, 1, 2, 3):
             for e in (0, 1):
                 for r in (0, 1):
                     if w * delay <= 6:
